@@ -109,6 +109,7 @@ type NegScript struct {
 	ExtraFeats bool     `json:"extra_features"`
 	TLSReply   int      `json:"tls_reply"`
 	Cert       int      `json:"cert"`
+	TLS12      bool     `json:"tls_1_2_only,omitempty"` // the server does not speak TLS 1.3
 	AuthReply  int      `json:"auth_reply"`
 	AuthCond   string   `json:"auth_cond,omitempty"`
 	Session    int      `json:"session"`
@@ -280,6 +281,15 @@ func (sc *SrvConn) Close() {
 	sc.Dead = true
 	sc.e.Logf("srv.close", "%s", sc.name())
 	sc.End.Close()
+}
+
+// CloseTLS ends the TLS session the way tls.Conn.Close does (close_notify alert, then FIN),
+// without closing the XMPP stream first.
+func (sc *SrvConn) CloseTLS() {
+	sc.closedByUs = true
+	sc.Dead = true
+	sc.e.Logf("srv.close", "%s (TLS close_notify)", sc.name())
+	sc.conn.Close()
 }
 
 // CloseGracefully sends </stream:stream> and then FIN.
@@ -624,6 +634,9 @@ func (sc *SrvConn) establish(how string) {
 
 func (sc *SrvConn) startTLS() {
 	cfg := sc.S.Certs.ServerConfig(sc.Script.Cert, sc.e.Tape.Seed)
+	if sc.Script.TLS12 {
+		cfg.MaxVersion = tls.VersionTLS12
+	}
 	if sc.Script.Cert == CertAbort {
 		sc.e.Fault("tls.abort")
 		sc.e.Yield("srv.tlsabort")
